@@ -32,7 +32,7 @@ JAlign(r) ==
             /\ Clause(i, "C07.ssq_not_larger_than_at_start", o.ssq1 <= o.ssq0 + 4)
             /\ Clause(i, "C07.avg_residual", AbsV(n * o.avg - SumSeq(o.rep, n)) <= 2 * n)
             /\ r.basin => ClauseAll(i, "C07.recovers_displacement", 1..n, LAMBDA j :
-                   \A a \in 1..3 : AbsV(o.moved[j][a] - 2048 * r.samples[j][a]) <= 12)
+                   \A a \in 1..3 : AbsV(o.moved[j][a] - 2048 * r.samples[j][a] - 4096 * r.off[a]) <= 12)
 
 Judge(r) ==
     /\ Sane(i, r)
